@@ -9,4 +9,6 @@ void vf_arm (int k, int mode);   /* the k-th allocation from now fails (k>=1); m
 void vf_disarm (void);
 void vf_log (int on);            /* log Malloc/Free events to the trace */
 void vf_pause (int on);          /* harness-internal allocations: not counted, never failed */
+void vf_begin (void);            /* start of a traced API call: allocations are counted / may fail / are logged */
+void vf_end (void);
 #endif
